@@ -21,7 +21,16 @@ def fuzz_job(name, secs):
 PROPS = {}
 
 
-def add(pid, pkg, quick, thorough, **kw):
+# sub-checks that declared themselves safe for it (pb.Options.Twins) are also run with every case executed by three
+# goroutines at once, each on objects of its own, under the race detector: independent objects share nothing, so any
+# report or failure there is state shared behind the scenes (package-level buffers, pools, random sources)
+TWINS = {"VERIF_TWINS_ONLY": "1", "VERIF_TWINS_EVERY": "1"}
+
+
+def add(pid, pkg, quick, thorough, twins=False, **kw):
+    if twins:
+        quick["jobs"].append(dict(name="twins", mode="race", run="^TestProps$", shards=1, scale=0.02, timeout=600, env=dict(TWINS)))
+        thorough["jobs"].append(dict(name="twins", mode="race", run="^TestProps$", shards=4, scale=0.5, timeout=3000, env=dict(TWINS)))
     PROPS[pid] = dict(pkg=pkg, quick=quick, thorough=thorough, **kw)
 
 
@@ -29,7 +38,7 @@ def add(pid, pkg, quick, thorough, **kw):
 q, t = rapid_jobs(tshards=16, tscale=150)
 q["jobs"].append(dict(name="exh", mode="plain", run="^TestExhaustive$", shards=1, timeout=300))
 t["jobs"].append(dict(name="exh", mode="plain", run="^TestExhaustive$", shards=1, timeout=600))
-add("C20", "c20", q, t)
+add("C20", "c20", q, t, twins=True)
 
 ASSUMPTIONS = {
     "*": [
@@ -44,73 +53,73 @@ q, t = rapid_jobs(tshards=16, tscale=150)
 q["jobs"].append(dict(name="exh", mode="plain", run="^TestExhaustive$", shards=1, timeout=300))
 t["jobs"].append(dict(name="exh", mode="plain", run="^TestExhaustive$", shards=1, timeout=1200))
 t["jobs"].append(fuzz_job("FuzzEscapes", 180))
-add("C07", "c07", q, t)
+add("C07", "c07", q, t, twins=True)
 
 # ---- C17 rune-aware helpers ----------------------------------------------------
 q, t = rapid_jobs(tshards=16, tscale=100)
 t["jobs"].append(fuzz_job("FuzzStrs", 150))
-add("C17", "c17", q, t)
+add("C17", "c17", q, t, twins=True)
 
 # ---- C15 std re-implementations -----------------------------------------------
 q, t = rapid_jobs(tshards=16, tscale=60)
 t["jobs"].append(dict(name="ipv4all", mode="plain", run="^TestIPv4All$", shards=16, timeout=3000, env={"VERIF_NSHARDS": 16}))
 t["jobs"].append(fuzz_job("FuzzParseUint", 150))
 t["jobs"].append(fuzz_job("FuzzHex", 90))
-add("C15", "c15", q, t)
+add("C15", "c15", q, t, twins=True)
 
 # ---- C08 AES helpers -----------------------------------------------------------
 q, t = rapid_jobs(tshards=16, tscale=200)
 t["jobs"].append(fuzz_job("FuzzUnpad", 150))
-add("C08", "c08", q, t)
+add("C08", "c08", q, t, twins=True)
 
 # ---- C09 secret-based encryption ----------------------------------------------
 q, t = rapid_jobs(tshards=16, tscale=40)
 t["jobs"].append(dict(name="openssl", mode="plain", run="^TestOpenSSL$", shards=1, scale=10, timeout=600))
 t["jobs"].append(fuzz_job("FuzzDecrypt", 180))
-add("C09", "c09", q, t)
+add("C09", "c09", q, t, twins=True)
 ASSUMPTIONS["C09"] = ["the harness' own EVP_BytesToKey(MD5,1)/AES-256-CBC/CTR/GCM reference (written from the OpenSSL definition on top of crypto/*) is correct; it is itself cross-checked against /usr/bin/openssl in the thorough tier when the binary is present"]
 
 # ---- C02 skip lists ------------------------------------------------------------
 q, t = rapid_jobs(tshards=16, tscale=80)
-add("C02", "c02", q, t)
+add("C02", "c02", q, t, twins=True)
 ASSUMPTIONS["C02"] = ["tower heights are injected by replacing the list's private *rand.Rand through reflection; if that field disappears the check falls back to the list's own randomness and says so (class FALLBACK)",
                       "the very first insertion into a zero-value list draws its height from the list's own time-seeded source (lazy Init re-creates it); all later heights are case-controlled"]
 
 # ---- C03 roaring bitmap / C16 bit sets ------------------------------------------
 q, t = rapid_jobs(tshards=16, tscale=64)
-add("C03", "c03", q, t)
+add("C03", "c03", q, t, twins=True)
 q, t = rapid_jobs(tshards=16, tscale=30)  # bits_huge allocates 256-512 MiB per case: 16 shards stay below 10 GiB
 add("C16", "c16", q, t)
 
 # ---- C04 heaps -------------------------------------------------------------------
 q, t = rapid_jobs(tshards=16, tscale=80)
-add("C04", "c04", q, t)
+add("C04", "c04", q, t, twins=True)
 
 # ---- C13 linked lists --------------------------------------------------------------
 q, t = rapid_jobs(tshards=16, tscale=50)
-add("C13", "c13", q, t)
+add("C13", "c13", q, t, twins=True)
 
 # ---- C14 slicez ---------------------------------------------------------------------
 q, t = rapid_jobs(tshards=16, tscale=100)
-add("C14", "c14", q, t)
+add("C14", "c14", q, t, twins=True)
 
 # ---- C10 rings, sequential -------------------------------------------------------------
 q, t = rapid_jobs(tshards=12, tscale=60)
 t["jobs"].append(dict(name="wrap", mode="plain", run="^TestWrapHonest$", shards=4, timeout=3000))
-add("C10", "c10", q, t)
+add("C10", "c10", q, t, twins=True)
 ASSUMPTIONS["C10"] = ["quick tier reaches counter values near 2^32 with a reflection helper that writes the state k push/pop pairs would produce; the helper is validated against honest stepping in every run (sub-check fastforward_selfcheck) and skips itself if the struct layout changes; the thorough tier performs the >2^32 operations honestly"]
 
 # ---- C05 / C06 trie ------------------------------------------------------------------------
 q, t = rapid_jobs(tshards=16, tscale=150)
 t["jobs"].append(fuzz_job("FuzzTrie", 200))
-add("C05", "c05", q, t)
+add("C05", "c05", q, t, twins=True)
 q, t = rapid_jobs(tshards=16, tscale=150)
 t["jobs"].append(fuzz_job("FuzzReplace", 200))
-add("C06", "c06", q, t)
+add("C06", "c06", q, t, twins=True)
 
 # ---- C18 algz dp / graph ----------------------------------------------------------------------
 q, t = rapid_jobs(tshards=16, tscale=100)
-add("C18", "c18", q, t)
+add("C18", "c18", q, t, twins=True)
 ASSUMPTIONS["C18"] = ["the code under test iterates Go maps, whose order the harness cannot control: every case is executed 5 times in the same process; a failure that depends on one particular iteration order may need several replays to reappear"]
 
 # ---- C11 SyncList (controlled schedules + race detector) ------------------------------------------
@@ -145,9 +154,9 @@ add("C12", "c12",
               dict(name="exh", mode="sched", run="^TestExhaustive$", shards=1, timeout=600),
               dict(name="race", mode="race", run="^TestRaced$", shards=3, scale=1, timeout=600),
               dict(name="loops", mode="race", run="^TestRacedLoops$", shards=2, scale=1, timeout=600),
-              dict(name="keytypes", mode="race", run="^TestKeyTypes$", shards=1, scale=1, timeout=600)]},
+              dict(name="keytypes", mode="race", run="^(TestKeyTypes|TestPointerValues)$", shards=1, scale=1, timeout=600)]},
     {"jobs": [dict(name="sched", mode="sched", run="^TestProps$", shards=10, scale=100, timeout=3000),
-              dict(name="keytypes", mode="race", run="^TestKeyTypes$", shards=2, scale=30, timeout=3000),
+              dict(name="keytypes", mode="race", run="^(TestKeyTypes|TestPointerValues)$", shards=2, scale=30, timeout=3000),
               dict(name="exh", mode="sched", run="^TestExhaustive$", shards=1, timeout=3000),
               dict(name="race", mode="race", run="^TestRaced$", shards=3, scale=30, timeout=3000),
               dict(name="loops", mode="race", run="^TestRacedLoops$", shards=2, scale=30, timeout=3000)]},
